@@ -188,13 +188,19 @@ class C13(Prop):
             "c13.percent: every one-byte message + random UTF-8 / invalid UTF-8 / '%' runs through PercentEncodeMessage, the "
             "grpc-message scanner and url.PathUnescape; c13.enc / c13.webrt / c13.grpcrt: structured errors (codes 0..17 and large, "
             "message byte classes, 0-3 details, well-formed and ill-formed trailer lists) through the REAL grpcStatusTrailers / "
-            "grpcWebStatusEndStream, then through the examiners (silent for well-formed input); c13.eos: every single-byte "
-            "delete / insert / replace of small real renderings + grammar-aware random blocks; c13.status: header maps over a "
-            "catalogue of grpc-status / grpc-message / grpc-status-details-bin malformations; c13.binmeta; c13.cerr / c13.ces: "
-            "conformant Connect error / end-stream JSON (silent, debug data included), tree-level malformations (missing / "
-            "mistyped / unknown / duplicate / case-folded keys at every depth, bad numbers), byte-level mutations and fuzz, the "
-            "tree coming from the real json.Decoder; c13.wire: examineWireDetails over content types x status x bodies x "
-            "trailers; c13.nocrash: arbitrary bytes through every examiner. non-trivial = result carries a feedback class or data")
+            "grpcWebStatusEndStream, then through the examiners (silent for well-formed input); c13.cerrrt / c13.cesrt: structured errors "
+            "and metadata through the REAL reference-server handlers + connect-go in-process (unary Connect error body, end-of-stream "
+            "message of a server stream, with / without error): the rendering's value tree must equal the model's wire_error / "
+            "wire_end_stream and the examiner must be completely silent (debug data included) on well-formed input; c13.eos: every "
+            "single-byte delete / insert / replace and every catalogue line inserted at every line boundary of small real renderings + "
+            "grammar-aware random blocks + empty-field-name lines at every position; c13.status: header maps over a catalogue of "
+            "grpc-status / grpc-message / grpc-status-details-bin malformations; c13.binmeta; c13.cerr / c13.ces: conformant Connect "
+            "error / end-stream JSON (silent, debug data included), EVERY single malformation of a catalogue (delete / duplicate / "
+            "case-folded / retyped / unknown member, bad element, bad string) at EVERY node of conformant trees (depth 0-6), null at "
+            "each typed key, code_<n> strings, random tree-level malformations, byte-level mutations and fuzz, the tree coming from "
+            "the real json.Decoder; c13.wire: examineWireDetails over content types x status x bodies x trailers; c13.nocrash: "
+            "arbitrary bytes (up to 200) through every examiner; a panic inside an oracle stage becomes a failing case. "
+            "non-trivial = result carries a feedback class or data; per-class occurrence counts are in the evidence (class_counts, each >= 50)")
     trusted_base = ("Coq 8.16.1 kernel (vm_compute used, native_compute not)", "extraction (ExtrOcamlBasic only) + ocaml/driver.ml",
                     "vlib generators/comparator, Go overlay harness files (incl. the format-string -> class table)",
                     "modelled as oracles, not verified: encoding/json (syntax, token stream, typed Unmarshal views of one tree, "
@@ -205,14 +211,25 @@ class C13(Prop):
                    "proto.Unmarshal(proto.Marshal(s)) = s for google.rpc.Status (hypothesis of the acceptance theorems; sampled on every run)",
                    "encoding/json: Unmarshal into the typed structs, the Decoder token walk and Unmarshal into map[string]any are views of "
                    "one value tree; a RawMessage re-parses to its subtree (sampled on every run)")
-    level_text = ("Machine-checked proof (Coq) that, for the model of wire_details.go and of the reference server's gRPC status encoders, "
-                  "(1) every error (16 codes x all message bytes x all detail lists x all well-formed trailer lists) rendered by "
-                  "grpcWebStatusEndStream / grpcStatusTrailers is examined without feedback, Connect error / end-stream trees are silent "
-                  "exactly when well-formed; (2) every malformation class the checks name yields feedback; (3) no examiner can crash. "
-                  "The model is tied to the Go code by a differential run (structured, exhaustive-single-mutation and fuzz) on every check.")
+    level_text = ("Machine-checked proof (Coq, 49 theorems) that, for the model of wire_details.go and of the reference server's encoders, "
+                  "(1) every error (16 codes x all message bytes x all detail lists x all well-formed trailer / metadata lists) rendered by "
+                  "grpcStatusTrailers / grpcWebStatusEndStream (gRPC, gRPC-Web) and by the reference server's Connect path (unary error body, "
+                  "end-of-stream message with or without error) is examined without feedback; (2) the Connect JSON examiners are silent on a "
+                  "value tree EXACTLY when it satisfies the declarative well-formedness predicate (iff, all trees, every depth: duplicate keys, "
+                  "per-key checks inside details and metadata), the grpc-message scanner exactly on well-formed percent-encodings, and "
+                  "'should end with CRLF' exactly on blocks not ending in LF; (3) every malformation class the checks name yields feedback of "
+                  "that class for ALL inputs having it (status trio, base64, agreement, line endings, blank lines, obs-fold / leading white "
+                  "space, missing colon, field names / values, upper-case keys, HTTP trailers outside gRPC, code / keys / duplicates); "
+                  "(4) no examiner or encoder can crash. The model is tied to the Go code by a differential run on every check (structured "
+                  "inputs through the real encoders and the real reference-server handlers, exhaustive single malformations, fuzz).")
     level_note = ("Trusted: Coq kernel, extraction, OCaml driver, harness and its message classifier; the model/Go correspondence is sampled, "
                   "not proved. encoding/json, base64-in-Go vs the modelled base64, proto (un)marshal are oracles whose answers the Go side "
-                  "re-validates on each evaluation. The debug-data comparison of error details is outside the model.")
+                  "re-validates on each evaluation; connect-go's JSON marshalling of an error / end-of-stream message is modelled (wire_error / "
+                  "wire_end_stream) and compared tree-for-tree with the real handler's output, for valid-UTF-8 messages and metadata only "
+                  "(what a proto3 string can carry to the server). The debug-data comparison of error details (protojson + registry) is "
+                  "outside the model: debug trees are data of the case; the Go side must stay silent about them on real renderings. "
+                  "The Connect rejection theorems below the top level state 'some feedback' (not which class): the first problem in document "
+                  "order wins in the code, so the class is not determined by the malformation alone. Nothing is named _partial.")
     _crashed = ()
     _gen_counts = {}
     _generated = False
